@@ -3,8 +3,9 @@
     an ASSUMPTION validated against the vt100 crate), model/SingleBar.v (configuration, ghost
     log/frame, Fits).  Proofs: proofs/TermProofs.v, proofs/SingleBarProofs.v. *)
 From Coq Require Import List NArith Lia.
-From IndModel Require Import SingleBar SysCheck.
-From IndProofs Require Import TermProofs SingleBarProofs.
+From IndModel Require Import SingleBar SysCheck Locks Brackets BracketsC01.
+From IndGen Require Import LockFootprints.
+From IndProofs Require Import TermProofs SingleBarProofs BracketsC01Proofs.
 From Coq Require Import String.
 Import ListNotations.
 Open Scope N_scope.
@@ -20,8 +21,12 @@ Open Scope N_scope.
         pre ++ wrap W log ++ wrap W frame      (as rows of W cells; only blank rows below)
     where log = lines given to println + lines written by suspend closures, frame = rendering of
     the bar state at the last painted draw; and one more character would land at column 0 of the
-    first row below. *)
-Theorem C01_screen :
+    first row below.
+    [_partial] (DESIGN naming rule): the property text is FALSE on the real code for the class [hist_ok]
+    removes (C01_empty_line_swallowed_refuted); further restrictions: the 7-part template family,
+    single-column characters, a [ready] start, no I/O failures, the sequential model (the tie to the
+    locking discipline is C01_calls_are_one_bar_section below). *)
+Theorem C01_screen_partial :
   forall (W H : N) (pre : list (list N)) (s0 : sys) (t0 : term) (h : list (N * op)),
   1 <= W -> 1 <= H ->
   sb_initial s0 -> ready (N.to_nat W) (N.to_nat H) pre t0 -> hist_ok W H s0 (ghost_for t0) h -> Fits W H s0 h ->
@@ -31,10 +36,10 @@ Theorem C01_screen :
              = map (pad (N.to_nat W)) (expected_rows W pre g) ++ repeat (repeat SP (N.to_nat W)) k)
   /\ next_cell (N.to_nat W) t = (List.length (expected_rows W pre g), 0%nat).
 Proof. intros W H pre s0 t0 h HW HH. exact (c01_screen W H HW HH pre s0 t0 h). Qed.
-Print Assumptions C01_screen.
+Print Assumptions C01_screen_partial.
 
 (** ... after EVERY op: the same for each prefix of a history that meets the hypotheses *)
-Theorem C01_screen_after_every_op :
+Theorem C01_screen_after_every_op_partial :
   forall (W H : N) (pre : list (list N)) (s0 : sys) (t0 : term) (h1 h2 : list (N * op)),
   1 <= W -> 1 <= H ->
   sb_initial s0 -> ready (N.to_nat W) (N.to_nat H) pre t0 ->
@@ -45,7 +50,7 @@ Theorem C01_screen_after_every_op :
              = map (pad (N.to_nat W)) (expected_rows W pre g) ++ repeat (repeat SP (N.to_nat W)) k)
   /\ next_cell (N.to_nat W) t = (List.length (expected_rows W pre g), 0%nat).
 Proof. exact c01_screen_every_prefix. Qed.
-Print Assumptions C01_screen_after_every_op.
+Print Assumptions C01_screen_after_every_op_partial.
 
 (** the fresh terminal is a well-formed start (pre = []) *)
 Example C01_fresh_terminal : forall W H : nat, ready W H [] term_init.
@@ -140,3 +145,44 @@ Example C01_empty_closure_lines_covered :
   /\ screen 5 (snd st) = map (pad 5) [t ""; t ""; t "x"; t ""; t "hello"; t "y"; t ""; t ""]
   /\ next_cell 5 (snd st) = (7%nat, 0%nat).
 Proof. vm_compute. repeat split. Qed.
+
+(** ------------------------------------------------------------------------------------------------
+    Why "one op = one atomic step" is a faithful reading of the code when other threads hold clones
+    of the handle.  The theorems above run a SEQUENTIAL model.  Over the structured lock footprints
+    that tools/locks_extract.py regenerates from /repo/src on every run (gen/LockFootprints.v),
+    on EVERY path of EVERY call of the C01 alphabet:
+      - the call is at most ONE outermost critical section over the bar mutex ([bar_sections]), and
+      - every marked state access - taking the MultiState lock for the paint, BarState::tick, every
+        user callback - happens while that mutex is held, the mutex is never given up by a condvar
+        wait, and the trace is balanced ([inside_bar]);
+    ProgressBar::drop never takes the bar mutex: the handle gives up its Arc first and everything
+    else runs with exclusive ownership ([owned_access]); the number of its sections over the
+    MultiState lock is the documented one (Brackets.allowed_sections, property C02).
+    Not covered by the footprints: TermLike / Write calls are not marked individually (they are made
+    by the draw, which is inside the MultiState section that [inside_bar] places inside the bar
+    section). *)
+Theorem C01_calls_are_one_bar_section :
+  forall o : op, c01_op o = true ->
+  exists name p, c01_call o = Some name /\ pg_lookup name all_programs = Some p /\
+    forall tr, paths p tr ->
+      if String.eqb name "ProgressBar::drop"
+      then owned_access tr = true /\ (sections tr <= allowed_sections name)%nat
+      else (bar_sections tr <= 1)%nat /\ inside_bar tr = true.
+Proof. exact c01_calls_atomic. Qed.
+Print Assumptions C01_calls_are_one_bar_section.
+
+(** ... in particular the closure given to ProgressBar::suspend runs INSIDE the one bar section: on
+    every path of the generated program, and there is a path on which a callback occurs *)
+Theorem C01_suspend_closure_inside_bar_section :
+  exists p, pg_lookup "ProgressBar::suspend" all_programs = Some p /\
+    (forall tr, paths p tr -> (bar_sections tr <= 1)%nat /\ inside_bar tr = true) /\
+    (exists tr, paths p tr /\ In CCallback tr).
+Proof. exact suspend_closure_inside. Qed.
+Print Assumptions C01_suspend_closure_inside_bar_section.
+
+(** the predicates do reject a suspend that releases the bar lock while the closure runs *)
+Example C01_released_closure_rejected :
+  let tr := [CAcq CBar; CAcq CMulti; CRel CMulti; CRel CBar; CCallback;
+             CAcq CBar; CAcq CMulti; CRel CMulti; CRel CBar] in
+  inside_bar tr = false /\ bar_sections tr = 2%nat /\ one_bar_section (PSeq (map PAct tr)) = false.
+Proof. exact released_closure_rejected. Qed.
